@@ -22,6 +22,7 @@ from ..astutil import call_name, calls, dotted, names_in, param_names, stmts, wa
 from ..cfg import CFG
 from ..core import AnalysisError, Mutant
 from .C08 import AFFINE_GROUPS, LINEAR_GROUPS, fill_check
+from ..exprnorm import has_code
 
 EXPLANATION = (
     "Stencil agreement of the banded and X-drop fill functions with the traceback, linear-form "
@@ -113,12 +114,12 @@ def run(ctx):
                "the cells visited must be exactly the diagonals lower_diag..upper_diag inside the table", f.lineno)
     ab = b.func("align_banded")
     at = ast.unparse(ab)
-    swap = [st for st in stmts(ab) if isinstance(st, ast.If) and "len(seq2) < len(seq1)" in ast.unparse(st.test)]
+    swap = [st for st in stmts(ab) if isinstance(st, ast.If) and has_code(st.test, "len(seq2) < len(seq1)")]
     ctx.need(swap, "swap branch of align_banded")
     sb = "\n".join(ast.unparse(x) for x in swap[0].body)
     ctx.ob("R3.swap-pairing", BD, "align_banded", "swap => band negated, matrix transposed, flag set",
            "seq1, seq2 = (seq2, seq1)" in sb and "band = [-diag for diag in band]" in sb and "matrix = matrix.transpose()" in sb
-           and "is_swapped = True" in sb and any("is_swapped = False" in ast.unparse(x) for x in swap[0].orelse),
+           and "is_swapped = True" in sb and any(has_code(x, "is_swapped = False") for x in swap[0].orelse),
            "swapping the sequences requires negating the band and transposing the matrix", swap[0].lineno)
     rets = [st for st in stmts(ab) if isinstance(st, ast.If) and ast.unparse(st.test) == "is_swapped"]
     ctx.ob("R3.swap-pairing", BD, "align_banded", "swapped result: Alignment([seq2, seq1], np.flip(trace, axis=1), ...)",
@@ -127,8 +128,8 @@ def run(ctx):
            "a swapped computation must return the sequences in the caller's order with the trace columns flipped",
            rets[0].lineno if rets else ab.lineno)
     ctx.ob("R3.band-clipping", BD, "align_banded", "lower = max(lower, -len(seq1) + 1); upper = min(upper, len(seq2) - 1)",
-           "lower_diag = max(lower_diag, -len(seq1) + 1)" in at and "upper_diag = min(upper_diag, len(seq2) - 1)" in at
-           and "lower_diag, upper_diag = (min(band), max(band))" in at,
+           has_code(ab, "lower_diag = max(lower_diag, -len(seq1) + 1)") and has_code(ab, "upper_diag = min(upper_diag, len(seq2) - 1)")
+           and has_code(ab, "lower_diag, upper_diag = (min(band), max(band))"),
            "the band is the pair (min, max) of the given diagonals clipped to the table", ab.lineno)
     ft_calls = [c for c in calls(ab) if call_name(c) == "follow_trace"]
     def _kw(c, name):
@@ -140,7 +141,7 @@ def run(ctx):
                and _kw(c, "lower_diag") == "lower_diag" and _kw(c, "upper_diag") == "upper_diag"
                and _kw(c, "max_trace_count") == "max_number" and _kw(c, "state") == "state_start" for c in ft_calls),
            "the traceback must run in banded mode with the band and budget used for filling", ab.lineno)
-    ctx.ob("R4.max-number-truncated", BD, "align_banded", "trace_list = trace_list[:max_number]", "trace_list = trace_list[:max_number]" in at,
+    ctx.ob("R4.max-number-truncated", BD, "align_banded", "trace_list = trace_list[:max_number]", has_code(ab, "trace_list = trace_list[:max_number]"),
            "", ab.lineno, nontrivial=False)
     starts = {}
     for st in ast.walk(ab):
@@ -254,7 +255,7 @@ def run(ctx):
                "an assembled alignment must contain the seed position", st.lineno)
     t = ast.unparse(al)
     ctx.ob("R5.same-score-both-modes", LG, "align_local_gapped", "return total_score / Alignment(..., total_score)",
-           "return total_score" in t and "Alignment([seq1, seq2], trace, total_score)" in t
+           has_code(al, "return total_score") and has_code(al, "Alignment([seq1, seq2], trace, total_score)")
            and seed_pair_dominates(al),
            "score-only and full mode must report the same variable, including the seed pair", al.lineno)
     ar = g.func("_align_region")
@@ -262,8 +263,8 @@ def run(ctx):
     ctx.ob("R5.same-score-both-modes", LG, "_align_region", "max_score - init_score in both returns",
            art.count("max_score - init_score") == 2, "both modes must report the table maximum minus the initial score", ar.lineno)
     ctx.ob("R5.upstream-trace-offset", LG, "align_local_gapped", "reversed, negated, offset by seed - 1",
-           "upstream_traces = [trace[::-1] for trace in upstream_traces]" in t and "offset = np.array(seed) - 1" in t
-           and "trace[non_gap_mask] *= -1" in t and "offset = np.array(seed) + 1" in t,
+           has_code(al, "upstream_traces = [trace[::-1] for trace in upstream_traces]") and has_code(al, "offset = np.array(seed) - 1")
+           and has_code(al, "trace[non_gap_mask] *= -1") and has_code(al, "offset = np.array(seed) + 1"),
            "upstream traces are computed on reversed prefixes: positions map back as (seed - 1) - k, downstream as (seed + 1) + k",
            al.lineno)
     # ---------------- ungapped seed extension ----------------------------------------
@@ -278,7 +279,7 @@ def run(ctx):
     ra = ast.unparse([st for st in a_.body if isinstance(st, ast.Return)][0])
     rb = ast.unparse([st for st in b_.body if isinstance(st, ast.Return)][0])
     ctx.ob("R6.sibling-results-equal", LU, "_seed_extend_uint8", f"{ra} / score[0] = max_score; {rb}",
-           ra == "return (max_score, i_max_score + 1)" and rb == "return i_max_score + 1" and "score[0] = max_score" in ast.unparse(b_),
+           ra == "return (max_score, i_max_score + 1)" and rb == "return i_max_score + 1" and has_code(b_, "score[0] = max_score"),
            "both variants report the maximum score and the length up to its position", b_.lineno)
     au = u.func("align_local_ungapped")
     ut = ast.unparse(au)
@@ -288,13 +289,13 @@ def run(ctx):
                bool(blk) and ast.unparse(blk[0]).count(slices) == 2,
                f"the {flag} extension must run under `{flag}` on the right slices in both code paths", au.lineno)
     ctx.ob("R5.same-score-both-modes", LU, "align_local_ungapped", "return total_score / Alignment(..., total_score)",
-           "return total_score" in ut and "Alignment([seq1, seq2], trace, total_score)" in ut
+           has_code(au, "return total_score") and has_code(au, "Alignment([seq1, seq2], trace, total_score)")
            and seed_pair_dominates(au),
            "score-only and full mode must report the same variable, including the seed pair", au.lineno)
     ctx.ob("R5.seed-in-every-trace", LU, "align_local_ungapped", "np.arange(seq1_start + start_offset, seq1_start + stop_offset)",
-           "start_offset = 0" in ut and "stop_offset = 1" in ut and "start_offset -= length" in ut and "stop_offset += length" in ut
-           and "np.arange(seq1_start + start_offset, seq1_start + stop_offset)" in ut
-           and "np.arange(seq2_start + start_offset, seq2_start + stop_offset)" in ut,
+           has_code(au, "start_offset = 0") and has_code(au, "stop_offset = 1") and has_code(au, "start_offset -= length") and has_code(au, "stop_offset += length")
+           and has_code(au, "np.arange(seq1_start + start_offset, seq1_start + stop_offset)")
+           and has_code(au, "np.arange(seq2_start + start_offset, seq2_start + stop_offset)"),
            "the diagonal stretch must run from seed - upstream length to seed + downstream length inclusive", au.lineno)
 
     extra_rules(ctx)
